@@ -156,3 +156,31 @@ Proof.
     + destruct (read_from_remote s' id p a) as [s2 o2]. cbn [snd] in *. rewrite Hread. cbn [app]. reflexivity.
   - destruct (r_local p) as [l|]; [right; exists l; reflexivity|left; reflexivity].
 Qed.
+
+(* ---- C04, the positive half: when the peer closes an established connection (the adapter's
+   receive() answers Disconnected) and nobody interferes, the call delivers every chunk that
+   preceded the close, then EXACTLY ONE Disconnected, and the registry entry is gone ---- *)
+Lemma find_remove_same' id l : find_remote id (remove_remote id l) = None.
+Proof.
+  induction l as [|[k q] r IH]; cbn [remove_remote find_remote]; [reflexivity|].
+  destruct (N.eqb_spec k id) as [->|Hk]; [exact IH|]. cbn [find_remote]. destruct (N.eqb_spec k id); [contradiction|exact IH].
+Qed.
+
+Theorem peer_close_delivers_data_then_one_disconnected s id a p :
+  resource_type gen_layout id = Remote -> find_remote id (remotes s) = Some p -> r_ready p = true ->
+  a_read a = RDisconnected -> quiet a ->
+  snd (process s id Read a) = chunk_events (id, r_peer p) (a_chunks a) ++ [OEv (Disconnected (id, r_peer p))] /\
+  find_remote id (remotes (fst (process s id Read a))) = None.
+Proof.
+  intros Ht Hf Hr Hd (Q0 & Q1 & Q2 & Q3 & Q4). unfold process. rewrite Ht, Hf, Q0. cbn [exec_ucalls].
+  unfold resolve_pending. rewrite Hr. cbn [app].
+  unfold read_from_remote. cbv zeta.
+  match goal with |- context [deliver_chunks s ?e (a_chunks a)] =>
+    pose proof (deliver_quiet id (r_peer p) (a_chunks a) s Q4) as [E2 _];
+    pose proof (deliver_quiet_events id (r_peer p) (a_chunks a) s Q4) as E3;
+    change (id, r_peer p) with e in E2, E3;
+    destruct (deliver_chunks s e (a_chunks a)) as [s2 o2] end.
+  cbn [fst snd] in E2, E3. subst s2 o2. rewrite Hd, Q2. cbn [exec_ucalls].
+  unfold deregister_remote. rewrite Hf. rewrite Q3. cbn [exec_ucalls fst snd app].
+  split; [reflexivity|]. unfold with_remotes. cbn [remotes]. apply find_remove_same'.
+Qed.
